@@ -49,4 +49,81 @@ theorem portEntries_maps (ign : Bool) (ms : List Val.KVs) (acc : List Val) :
   | nil => simp [portEntries]
   | cons m r ih => simp [portEntries, ih]
 
+theorem kvList_false_ne_none (l : List Val) (acc : Val.KVs) : kvList false l acc ≠ none := by
+  induction l generalizing acc with
+  | nil => simp [kvList]
+  | cons e r ih =>
+    cases e with
+    | str s =>
+      simp only [kvList]
+      split
+      · simp
+      · exact ih _
+    | _ => simp [kvList]
+
+theorem envFileValue_idem (v : Val) : envFileValue (envFileValue v) = envFileValue v := by
+  cases v with
+  | str s => simp [envFileValue, hasKey, Val.lookup]
+  | map m =>
+    simp only [envFileValue]
+    by_cases hk : hasKey "required" m = true
+    · simp [hk]
+    · have : hasKey "required" (m ++ [("required", Val.bool true)]) = true := by
+        simp only [hasKey] at hk ⊢
+        induction m with
+        | nil => simp [Val.lookup]
+        | cons p r ih =>
+          obtain ⟨k, e⟩ := p
+          simp only [List.cons_append, Val.lookup] at hk ⊢
+          split
+          · simp
+          · rename_i hne
+            simp only [hne, if_false] at hk
+            exact ih hk
+      simp [hk, this]
+  | _ => rfl
+
+def AllMaps (l : List Val) : Prop := ∀ x ∈ l, ∃ m, x = Val.map m
+
+theorem allMaps_exists (l : List Val) (h : AllMaps l) : ∃ ms : List Val.KVs, l = ms.map Val.map := by
+  induction l with
+  | nil => exact ⟨[], rfl⟩
+  | cons x r ih =>
+    obtain ⟨m, hm⟩ := h x (by simp)
+    obtain ⟨ms, hms⟩ := ih (fun y hy => h y (by simp [hy]))
+    exact ⟨m :: ms, by simp [hm, hms]⟩
+
+theorem allMaps_append_ports (acc : List Val) (l : List PortCfg) (h : AllMaps acc) : AllMaps (acc ++ l.map encodePort) := by
+  intro x hx
+  simp only [List.mem_append, List.mem_map] at hx
+  rcases hx with hx | ⟨p, _, hp⟩
+  · exact h x hx
+  · exact ⟨_, by rw [← hp]; rfl⟩
+
+theorem portEntries_allMaps (ign : Bool) (l acc r : List Val) (hacc : AllMaps acc)
+    (h : portEntries ign l acc = some (.ok r)) : AllMaps r := by
+  induction l generalizing acc with
+  | nil => simp [portEntries] at h; subst h; exact hacc
+  | cons e t ih =>
+    cases e with
+    | int i =>
+      simp only [portEntries] at h
+      split at h
+      · simp at h
+      · exact ih _ (allMaps_append_ports _ _ hacc) h
+    | str s =>
+      simp only [portEntries] at h
+      split at h
+      · split at h <;> simp at h
+      · exact ih _ (allMaps_append_ports _ _ hacc) h
+    | map m =>
+      simp only [portEntries] at h
+      apply ih _ _ h
+      intro x hx
+      simp only [List.mem_append, List.mem_singleton] at hx
+      rcases hx with hx | hx
+      · exact hacc x hx
+      · exact ⟨m, hx⟩
+    | _ => simp [portEntries] at h
+
 end CV.Short
